@@ -271,7 +271,7 @@ def register(reg):
                    "forall(range(0, len(reactions)), lambda j: implies({M}, self.confidence_col in {R}))".format(M=M, R=R),
                    "forall(range(0, len(reactions)), lambda j: implies({M} and as_real({R}[self.confidence_col]) < threshold, old({R}[self.issue_col]) == ''))".format(M=M, R=R)]
     notk = lambda ks: " and ".join("k != %s" % k for k in ks)  # noqa
-    RP = ("(is_real(r[self.confidence_col]) and as_real(r[self.confidence_col]) >= 0 and as_real(r[self.confidence_col]) <= 1"
+    RP = ("(is_real(r[self.confidence_col]) and as_real(r[self.confidence_col]) >= 0 and as_real(r[self.confidence_col]) <= 1 and as_real(r[self.confidence_col]) == confidence[a]"
           " and implies(as_real(r[self.confidence_col]) >= threshold, r[self.solved_col] == old(r[self.solved_col]) and r[self.issue_col] == old(r[self.issue_col]))"
           " and implies(as_real(r[self.confidence_col]) < threshold, r[self.solved_col] == False and r[self.issue_col] == " + MSG + " and old(r[self.issue_col]) == '')"
           " and forall(STR, lambda k: implies(" + notk(PKEYS) + ", r[k] == old(r[k]) and (k in r) == old(k in r))))")
@@ -285,6 +285,8 @@ def register(reg):
         "forall(range(0, _i), lambda a: let(reactions[a], lambda r: " + RP + "))",
         "forall(range(_i, len(reactions)), lambda a: let(reactions[a], lambda r: " + RU + "))",
         "conf_success >= 0 and len(reactions) == len(confidence)",
+        # the counter is the number of scored rows so far whose confidence reaches the threshold [C18]
+        "conf_success == sumto(_i, (1 for c in confidence if c >= threshold))",
         "forall(range(0, len(old(reactions))), lambda j: let(old(reactions)[j], lambda r: forall(STR, lambda k: implies(old(k in r), k in r))))",
         # the scored list is a sub-list of the argument: exactly its rows attributed to the method
         "forall(range(0, len(reactions)), lambda a: in_list(reactions[a], old(reactions)))",
@@ -306,6 +308,10 @@ def register(reg):
         + ["forall(range(0, len(reactions)), lambda j: %s)" % p for p in PPOST]
         + [only_keys("reactions", PKEYS),
            "implies(not is_none(stats), 'confident_cnt' in stats and stats['confident_cnt'] >= 0)",
+           # confident_cnt is the number of returned (scored) rows whose confidence reaches the threshold, i.e. that stay solved [C18]
+           "implies(not is_none(stats), stats['confident_cnt'] == sum(1 for r in result if as_real(r[self.confidence_col]) >= threshold))",
+           # ... which is the number of rows of the argument list that are attributed to the method and reach the threshold
+           "implies(not is_none(stats), stats['confident_cnt'] == sum(1 for j in range(0, len(reactions)) if {M} and as_real({R}[self.confidence_col]) >= threshold))".format(M=M, R=R),
            "implies(not is_none(stats), forall(STR, lambda k: implies(k != 'confident_cnt', get0(stats, k) == old(get0(stats, k)) and (k in stats) == old(k in stats))))"] + PPOST_EXTRA,
         modifies=["each(reactions)", "stats"],
         loops={0: {"inv": PINV}},
@@ -390,6 +396,9 @@ def register(reg):
         + ["forall(range(0, len(reactions)), lambda j: %s)" % p for p in MPOST]
         + ["implies(not is_none(stats), 'mcs_applied' in stats and 'mcs_solved' in stats and stats['mcs_solved'] <= stats['mcs_applied'] "
            "and 0 <= stats['mcs_solved'] and stats['mcs_applied'] <= len(reactions))",
+           # mcs_applied counts the rows that reached the stage with a search-data key, mcs_solved those that got a completion appended [C18]
+           "implies(not is_none(stats), stats['mcs_applied'] == sum(1 for j in range(0, len(reactions)) if old(self.mcs_data_col in {R})))".format(R=R),
+           "implies(not is_none(stats), stats['mcs_solved'] == sum(1 for j in range(0, len(reactions)) if {T} and {R}[self.reaction_col] != old({R}[self.reaction_col])))".format(T=TRIED, R=R),
            "implies(not is_none(stats), forall(STR, lambda k: implies(k != 'mcs_applied' and k != 'mcs_solved', get0(stats, k) == old(get0(stats, k)) and (k in stats) == old(k in stats))))"],
         modifies=["each(reactions)", "stats"],
         loops={0: {"inv": [
@@ -397,6 +406,9 @@ def register(reg):
             "forall(ROW, lambda r: implies(not in_list(r, reactions), same_map(r, old(mapof(r)))))",
             "forall(range(_i, len(reactions)), lambda j: same_map({R}, old(mapof({R}))))".format(R=R),
             "0 <= mcs_solved and mcs_solved <= mcs_applied and mcs_applied <= _i",
+            # the counters: rows carrying search data / rows whose reaction got a completion appended [C18]
+            "mcs_applied == sumto(_i, (1 for j in range(0, len(reactions)) if old(self.mcs_data_col in {R})))".format(R=R),
+            "mcs_solved == sumto(_i, (1 for j in range(0, len(reactions)) if {T} and {R}[self.reaction_col] != old({R}[self.reaction_col])))".format(T=TRIED, R=R),
             "implies(not is_none(stats), same_map(stats, old(mapof(stats))))",
             "len(self.output_col) == 1 and self.output_col[0] == self.reaction_col",
         ] + ["forall(range(0, _i), lambda j: %s)" % p for p in MPOST]},
@@ -673,6 +685,10 @@ def register(reg):
     ]
     FINAL = [allrows("implies(not truthy({Q}['solved']), {Q}[{RC}] == {Q}['input_reaction'] and 'issue' in {Q} and {Q}['issue'] != '')"),
              allrows("not ('confidence' in {Q}) or True")]
+    # C18: the MCS-applied count is the number of rows that were not solved before the MCS stage (rows finally attributed
+    # to the input check or to the rule-based method are exactly the rows solved before it)
+    APPLIED = ["implies(not is_none(stats), 'mcs_applied' in stats and stats['mcs_applied'] == sum(1 for j in range(0, len(reactions)) "
+               "if not ('solved_by' in reactions[j] and (reactions[j]['solved_by'] == 'input-balanced' or reactions[j]['solved_by'] == 'rule-based'))))"]
     COMMON = SHAPE + CNT + AFTER_INPUT
     CUTS = {
         "rxn_cnt = len(reactions)": SHAPE + NO_SEARCH_KEYS + [
@@ -681,18 +697,21 @@ def register(reg):
         "self.rb_validator.check@1": COMMON + NO_SEARCH_KEYS + NOMCSROWS,
         "self.mcs_search.find@1": COMMON + NO_SEARCH_KEYS + REVERTED + NOMCSROWS,
         "self.mcs_method.run@1": COMMON + AFTER_FIND + REVERTED + NOMCSROWS,
-        "self.mcs_validator.check@1": COMMON + AFTER_MCS + NOMCSROWS,
-        "self.__post_process@1": COMMON + AFTER_MCS + MCSROWS,
-        "self.rb_method.run@2": COMMON + AFTER_MCS + MCSROWS,
-        "self.mcs_validator.check@2": COMMON + AFTER_MCS + MCSROWS,
-        "self.conf_predictor.predict@1": COMMON + FINAL + MCSROWS,
-        "assert rxn_cnt": SHAPE + CNT + [
+        "self.mcs_validator.check@1": APPLIED + COMMON + AFTER_MCS + NOMCSROWS,
+        "self.__post_process@1": APPLIED + COMMON + AFTER_MCS + MCSROWS,
+        "self.rb_method.run@2": APPLIED + COMMON + AFTER_MCS + MCSROWS,
+        "self.mcs_validator.check@2": APPLIED + COMMON + AFTER_MCS + MCSROWS,
+        "self.conf_predictor.predict@1": APPLIED + COMMON + FINAL + MCSROWS,
+        "assert rxn_cnt": APPLIED + SHAPE + CNT + [
             allrows(IB + " == " + BAL),
             allrows("implies(" + IB + ", {Q}['solved'] == True and {Q}[{RC}] == {Q}['input_reaction'])"),
             allrows("implies(truthy({Q}['solved']), 'solved_by' in {Q} and ({Q}['solved_by'] == 'input-balanced' or {Q}['solved_by'] == 'rule-based' or {Q}['solved_by'] == 'mcs-based'))"),
             "implies(self.confidence_threshold <= 0, " + allrows("implies(not truthy({Q}['solved']), {Q}[{RC}] == {Q}['input_reaction'] and 'issue' in {Q} and {Q}['issue'] != '')") + ")",
             allrows("implies('solved_by' in {Q} and {Q}['solved_by'] == 'mcs-based', is_real({Q}['confidence']) and as_real({Q}['confidence']) >= 0 and "
                     "as_real({Q}['confidence']) <= 1 and truthy({Q}['solved']) == (as_real({Q}['confidence']) >= self.confidence_threshold))"),
+            # C18: the confident count is the number of returned rows that are solved by the MCS method
+            "implies(not is_none(stats), 'confident_cnt' in stats and stats['confident_cnt'] == "
+            "sum(1 for j in range(0, len(reactions)) if truthy(reactions[j]['solved']) and 'solved_by' in reactions[j] and reactions[j]['solved_by'] == 'mcs-based'))",
         ],
     }
     TOOL = ["'solved_by'", "'mcs'", "'issue'", "'confidence'", "'rules'", "'unbalance_col'", "'carbon_balance_check'"]
@@ -721,6 +740,12 @@ def register(reg):
             # C13: MCS-based rows carry a confidence in [0,1] and are solved exactly when it reaches the threshold
             "forall(range(0, len(result)), lambda j: implies('solved_by' in {X} and {X}['solved_by'] == 'mcs-based', is_real({X}['confidence']) and "
             "as_real({X}['confidence']) >= 0 and as_real({X}['confidence']) <= 1 and truthy({X}['solved']) == (as_real({X}['confidence']) >= self.confidence_threshold)))".format(X=RES),
+            # C18: the MCS-applied count equals the number of rows not solved before the MCS stage
+            "implies(not is_none(stats), 'mcs_applied' in stats and stats['mcs_applied'] == sum(1 for j in range(0, len(result)) "
+            "if not ('solved_by' in {X} and ({X}['solved_by'] == 'input-balanced' or {X}['solved_by'] == 'rule-based'))))".format(X=RES),
+            # C18: the confident count equals the number of rows solved by the MCS method
+            "implies(not is_none(stats), 'confident_cnt' in stats and stats['confident_cnt'] == "
+            "sum(1 for j in range(0, len(result)) if truthy({X}['solved']) and 'solved_by' in {X} and {X}['solved_by'] == 'mcs-based'))".format(X=RES),
         ],
         modifies=["each(reactions)", "stats", "*D.str.val.dom", "*D.str.val.val", "*D.str.int.dom", "*D.str.int.val"],
         cuts=CUTS,
